@@ -365,6 +365,43 @@ def stored_result(sc, fn, prefix="possible_next_events"):
                 if app and not (len(app) == 1 and unparse(app[0].func.value) == t + "[0]" and unparse(app[0].args[-1]) == elem):
                     ties_ok = False
             return {"target": t, "elem": elem, "date_ok": date_ok, "ties_ok": ties_ok, "node": s, "form": "A"}
+    # form C  in the reset arm:  T = ([elem], KEY) with T a local ; tie arms: T[0].append(elem) ; after the loop T is published as it is --
+    #         `<prefix>[k] = T` (possibly under `if T is not None`), or through a small helper `self.h(k, T)` whose body is that store
+    for s in arm_assigns:
+        if isinstance(s.targets[0], ast.Name) and isinstance(s.value, ast.Tuple) and len(s.value.elts) == 2 and isinstance(s.value.elts[0], ast.List) and len(s.value.elts[0].elts) == 1:
+            T = s.targets[0].id
+            elem = unparse(s.value.elts[0].elts[0])
+            pub = None
+            for x in ast.walk(fn):
+                if any(x is y for y in ast.walk(sc.loop)) or not precedes(fn, sc.loop, x):
+                    continue
+                if isinstance(x, ast.Assign) and len(x.targets) == 1 and prefix in unparse(x.targets[0]) and isinstance(x.value, ast.Name) and x.value.id == T:
+                    pub = (x, unparse(x.targets[0]))
+                if isinstance(x, ast.Expr) and isinstance(x.value, ast.Call) and isinstance(x.value.func, ast.Attribute) and unparse(x.value.func.value) == "self" \
+                        and any(isinstance(a, ast.Name) and a.id == T for a in x.value.args):
+                    cls_ = getattr(fn, "_parent", None)
+                    h = next((y for y in getattr(cls_, "body", []) if isinstance(y, ast.FunctionDef) and y.name == x.value.func.attr), None)
+                    if h is not None:
+                        hp = [a.arg for a in h.args.args][1:]
+                        if len(hp) == len(x.value.args) and not x.value.keywords:
+                            pT = hp[[i for i, a in enumerate(x.value.args) if isinstance(a, ast.Name) and a.id == T][0]]
+                            stores = [y for y in ast.walk(h) if isinstance(y, ast.Assign) and len(y.targets) == 1 and prefix in unparse(y.targets[0])
+                                      and isinstance(y.value, ast.Name) and y.value.id == pT]
+                            others = [y for y in ast.walk(h) if isinstance(y, (ast.Assign, ast.AugAssign)) and y not in stores]
+                            if len(stores) == 1 and not others:
+                                key = stores[0].targets[0].slice if isinstance(stores[0].targets[0], ast.Subscript) else None
+                                ktxt = unparse(key) if key is not None else "?"
+                                if isinstance(key, ast.Name) and key.id in hp:
+                                    ktxt = unparse(x.value.args[hp.index(key.id)])
+                                pub = (x, "%s[%s]" % (unparse(stores[0].targets[0].value) if isinstance(stores[0].targets[0], ast.Subscript) else unparse(stores[0].targets[0]), ktxt))
+            if pub is not None:
+                date_ok = unparse(s.value.elts[1]) == sc.key or _subst(unparse(s.value.elts[1]), sc.defs) == _subst(sc.key, sc.defs)
+                ties_ok = True
+                for tarm in sc.ties:
+                    app = [c for c in ast.walk(tarm) if isinstance(c, ast.Call) and isinstance(c.func, ast.Attribute) and c.func.attr in ("append", "insert")]
+                    if app and not (len(app) == 1 and unparse(app[0].func.value) == T + "[0]" and unparse(app[0].args[-1]) == elem):
+                        ties_ok = False
+                return {"target": pub[1], "elem": elem, "date_ok": date_ok, "ties_ok": ties_ok, "node": pub[0], "form": "C"}
     # form B
     for s in arm_assigns:
         if isinstance(s.targets[0], ast.Name) and isinstance(s.value, ast.List) and len(s.value.elts) == 1:
